@@ -1159,5 +1159,26 @@ func init() {
 			return us
 		},
 		Replay: c01Replay,
+	}) // C03: the connection that only receives (a valid stream) while the process performs the
+	// unrelated handshake is the one judged: its reads yield the sender's messages
+	fw.Register(fw.Part{
+		Prop: "C03", Name: "bystander",
+		Units: func(tier string) []fw.Unit {
+			var us []fw.Unit
+			for i, cs := range c01BystanderCases() {
+				cs := cs
+				us = append(us, fw.Unit{ID: fmt.Sprintf("case-%d", i), Run: func(c *fw.Ctx) {
+					c.Reprefix = true
+					c01One(c, cs)
+					c.AddStates(1)
+					c.Bound("bystander_cases", len(c01BystanderCases()))
+				}})
+			}
+			return us
+		},
+		Replay: func(c *fw.Ctx, data json.RawMessage) {
+			c.Reprefix = true
+			c01Replay(c, data)
+		},
 	})
 }
